@@ -598,6 +598,7 @@ def run(rep, tier):
         clause_e(facts, rep)
         clause_first_error(facts, rep)
         clause_error_sticky(facts, rep)
+        c02.clause_setup_bound(facts, rep)     # 'succeeds for every valid text': the node stack holds every node of a valid text (shared with C02)
         from .. import ws_table
         ws_table.check(facts, rep)
         # 'a number whose magnitude overflows double is rejected': shared with C04 clause (e)
